@@ -245,6 +245,51 @@ def _all_accepted(h, ss, hess_log):
     return True
 
 
+def h_tc_tracing(h, paranoid):
+    """findCriticalTemperature traces untraced phases over the coexistence range with the spinodal
+    stop ON and the requested re-minimisation setting"""
+    h.patch(TH, float=npx.symfloat, np=npx.NP())
+    th = TH.Thermodynamics.__new__(TH.Thermodynamics)
+    calls = []
+
+    class FEs:
+        def __init__(self, lo, hi, tag):
+            self.minPossibleTemperature = [lo, False]
+            self.maxPossibleTemperature = [hi, False]
+            self.tag, self.traced = tag, False
+
+        def hasInterpolation(self):
+            return self.traced
+
+        def tracePhase(self, TMin, TMax, dT, rTol=1e-6, spinodal=True, paranoid=True, phaseTracerFirstStep=None):
+            calls.append(dict(tag=self.tag, TMin=TMin, TMax=TMax, dT=dT, rTol=rTol, spinodal=spinodal, paranoid=paranoid))
+            self.traced = True
+            raise _Stop()
+
+    lo1, hi1 = h.real("TMinH", 1, 1e3, default=80.0), h.real("TMaxH", 1, 1e3, default=120.0)
+    h.assume(lt(lo1, hi1))
+    th.freeEnergyHigh = FEs(lo1, hi1, "H")
+    th.freeEnergyLow = FEs(lo1, hi1, "L")
+    dT = h.real("dT", 1e-3, 50, default=3.0)
+    for which in ("H", "L"):
+        try:
+            th.findCriticalTemperature(dT, rTol=1e-5, paranoid=paranoid)
+        except _Stop:
+            pass
+        except WallGoError:
+            return
+    h.prove("both phases traced", Cond(b=[c["tag"] for c in calls] == ["H", "L"]))
+    for c in calls:
+        h.prove(f"phase {c['tag']}: spinodal stop enabled, requested re-minimisation setting and tolerance passed on",
+                Cond(b=c["spinodal"] is True and c["paranoid"] is paranoid and c["rTol"] == 1e-5))
+        h.prove(f"phase {c['tag']}: traced over the coexistence range with the requested step",
+                AND(eq(c["TMin"], lo1), eq(c["TMax"], hi1), eq(c["dT"], dT)))
+
+
+class _Stop(Exception):
+    pass
+
+
 def h_tc(h):
     h.patch(TH, float=npx.symfloat, np=npx.NP())
     th = TH.Thermodynamics.__new__(TH.Thermodynamics)
@@ -295,6 +340,8 @@ HARNESSES = [
                [dict(nf=nf, paranoid=p, maxsteps=1) for nf in (1, 2) for p in (True, False)] +
                [dict(nf=2, paranoid=True, maxsteps=2)], max_paths=30000, timeout_s=30,
                encodes=[FE.FreeEnergy.tracePhase], random_validation=0, concrete_alarms=False, feas_timeout_ms=300),
+    HarnessDef("critical-temperature-tracing", h_tc_tracing, [dict(paranoid=True), dict(paranoid=False)], max_paths=50,
+               timeout_s=30, encodes=[TH.Thermodynamics.findCriticalTemperature], random_validation=1, concrete_alarms=False),
     HarnessDef("critical-temperature", h_tc, [dict()], max_paths=1500, timeout_s=30,
                encodes=[TH.Thermodynamics.findCriticalTemperature, TH.Thermodynamics._getCoexistenceRange],
                random_validation=0, concrete_alarms=False),
